@@ -149,7 +149,6 @@ theorem skip_spec (c : C) (h : Inv c) (n : Nat) : Inv (skip c n) ∧ abs (skip c
   obtain ⟨hi, ha⟩ := suffix_update c h _ _ h1 h2
   obtain ⟨hi', ha'⟩ := checkOffset_inv _ hi
   exact ⟨hi', by rw [ha', ha, h3]; rfl⟩
-
 end PB.Container
 
 namespace PB.Container
@@ -614,5 +613,74 @@ theorem step_refines (c : C) (h : Inv c) (op : Op) :
     | some raw => exact ⟨by simp [step, unmarshalJSON, Inv], by simp [R, step, PB.ByteQueue.step, unmarshalJSON, abs]⟩
   | writeAllTo budget =>
     exact ⟨h, by simp [R, step, PB.ByteQueue.step, writeAllTo, wtaLoop_spec, abs]⟩
+
+/-! ### Worlds of containers -/
+
+open PB.ByteQueue (WOp)
+
+/-- Every container of the world satisfies the representation invariant. -/
+def WInv (w : List C) : Prop := ∀ c ∈ w, Inv c
+
+theorem winv_set (w : List C) (i : Nat) (c : C) (h : WInv w) (hc : Inv c) : WInv (w.set i c) := by
+  intro x hx
+  rcases List.mem_or_eq_of_mem_set hx with h1 | h1
+  · exact h x h1
+  · subst h1; exact hc
+
+theorem appendContainerAsBlock_spec (c d : C) (h : Inv c) (hd : Inv d) :
+    Inv (appendContainerAsBlock c d) ∧
+    abs (appendContainerAsBlock c d) = abs c ++ pack64 (abs d).length ++ abs d := by
+  obtain ⟨a, b⟩ := append_spec c h (pack64 (length d))
+  obtain ⟨a', b'⟩ := appendContainer_spec _ d a hd
+  refine ⟨a', ?_⟩
+  show abs (appendContainer (append c (pack64 (length d))) d) = _
+  rw [b', b, length_eq]
+  rfl
+
+theorem wstep_refines (w : List C) (h : WInv w) (op : WOp) :
+    WInv (wstep w op).1 ∧ (wstep w op).1.map abs = (PB.ByteQueue.wstep (w.map abs) op).1 ∧
+    (wstep w op).2 = (PB.ByteQueue.wstep (w.map abs) op).2 := by
+  cases op with
+  | newc ds =>
+    refine ⟨?_, by simp [wstep, PB.ByteQueue.wstep, abs_new], rfl⟩
+    intro x hx
+    simp only [wstep, List.mem_append, List.mem_singleton] at hx
+    rcases hx with h1 | h1
+    · exact h x h1
+    · subst h1; exact inv_new ds
+  | on i op =>
+    simp only [wstep, PB.ByteQueue.wstep, List.getElem?_map]
+    cases hi : w[i]? with
+    | none => exact ⟨h, rfl, rfl⟩
+    | some c =>
+      have hc : Inv c := h c (List.mem_of_getElem? hi)
+      obtain ⟨a, b⟩ := step_refines c hc op
+      have b1 := congrArg Prod.fst b
+      have b2 := congrArg Prod.snd b
+      simp only [R] at b1 b2
+      simp only [Option.map_some]
+      exact ⟨winv_set w i _ h a, by rw [List.map_set, b1], b2⟩
+  | appendFrom i j =>
+    simp only [wstep, PB.ByteQueue.wstep, List.getElem?_map]
+    cases hi : w[i]? with
+    | none => exact ⟨h, rfl, rfl⟩
+    | some c =>
+      cases hj : w[j]? with
+      | none => exact ⟨h, rfl, rfl⟩
+      | some d =>
+        obtain ⟨a, b⟩ := appendContainer_spec c d (h c (List.mem_of_getElem? hi)) (h d (List.mem_of_getElem? hj))
+        simp only [Option.map_some]
+        exact ⟨winv_set w i _ h a, by rw [List.map_set, b], trivial⟩
+  | appendFromAsBlock i j =>
+    simp only [wstep, PB.ByteQueue.wstep, List.getElem?_map]
+    cases hi : w[i]? with
+    | none => exact ⟨h, rfl, rfl⟩
+    | some c =>
+      cases hj : w[j]? with
+      | none => exact ⟨h, rfl, rfl⟩
+      | some d =>
+        obtain ⟨a, b⟩ := appendContainerAsBlock_spec c d (h c (List.mem_of_getElem? hi)) (h d (List.mem_of_getElem? hj))
+        simp only [Option.map_some]
+        exact ⟨winv_set w i _ h a, by rw [List.map_set, b], trivial⟩
 
 end PB.Container
